@@ -298,11 +298,33 @@ class SchemaGen:
             for _ in range(n):
                 e = self.mentry(max(depth, 0), used, only=["bare"] * 5 + (["txt=>", "txt^=>"] if self.o.arrow_keys else []))
                 items.append(e)
-            if self.rng.random() < 0.4:
+            gor = self.rng.random() < 0.15
+            if gor:
+                # a group choice between lists of required literal-keyed members (fresh keys), anywhere among the members; no wildcard then
+                def alt():
+                    es = []
+                    for _ in range(self.rng.choice([1, 1, 2])):
+                        cand = [k for k in KEYS + ["e", "f", "g", "h", "m", "n"] if k not in used]
+                        if not cand:
+                            break
+                        k = self.rng.choice(cand)
+                        used.add(k)
+                        es.append(("ent", ("lit", ("txt", k)), True, self.ty(0)))
+                    if not es:
+                        return None
+                    a = es[-1]
+                    for it in reversed(es[:-1]):
+                        a = ("seq", it, a)
+                    return a
+                a1, a2 = alt(), alt()
+                if a1 is not None and a2 is not None:
+                    self.note("map:gor-required")
+                    items.insert(self.rng.randrange(len(items) + 1), ("gor", a1, a2))
+            if not gor and self.rng.random() < 0.4:
                 items.append(self.mentry(max(depth, 0), used, only=["wild"]))
-            if self.o.cbor and self.rng.random() < 0.3:
+            if not gor and self.o.cbor and self.rng.random() < 0.3:
                 # a wildcard over a key class disjoint from the text keys may stand anywhere
-                kt = self.rng.choice(["uint", "int", "bstr"])
+                kt = self.rng.choice(["uint", "int", "bstr", "float", "float64"])
                 oc = self.rng.choice([(0, None), (1, None), (0, None)])
                 w = ("ent", ("ref", kt), False, self.ty(max(depth, 0)))
                 w = w if oc is None else ("occ", oc[0], oc[1], w)
